@@ -21,6 +21,19 @@ Reading (where the property text leaves a choice, the one under which the minima
   accepts either fate of the reference; an unknown `which` string is not a valid argument: the oracle only demands
   that a rejection is atomic and otherwise follows the part (the model pins today's behaviour: nothing happens);
   an unknown `mode` string means "starting" (the code says so in its warning);
+* outside the property's quantifier but covered (round 6, Model/TimelineY.lean): the Tuplet.start_note / end_note
+  setters (one TimePoint.remove_*_object at the point where the PREVIOUS note starts / ends - bookkeeping as for a
+  direct remove_*_object); the class-query wrappers of Part (`notes`, `measures`, `rests`, ... - "class queries" of
+  the property: the oracle judges them by their documentation, table DOC_VIEWS); `Part.number_of_staves`, a memo
+  that only Part.add / Part.remove invalidate: the oracle demands the documented value (largest `staff` of the
+  registered notes, clefs, directions, words; at least 1) whenever no direct TimePoint / Slur / Tuplet call happened
+  since the last add / remove (after such a call - outside the quantifier - a stale memo is what the code does and
+  is not judged); `TimedObject.duration` = end time - start time of the registered times, None unless both are
+  registered (judged only when both point times are Python ints: a time handed over as a numpy scalar stays one in
+  TimePoint.t and `duration` is then numpy arithmetic - an unsigned kind wraps when end < start);
+  the six rich comparisons of TimePoints must be the comparisons of their times;
+  the memo `_number_of_staves` is not part of "the part" in the frame conditions (reading number_of_staves fills it,
+  a remove of an unregistered object resets it);
 * "the next later change" of `set_quarter_duration(t, q)`: the next entry of `quarter_durations()` (as it was
   before the call) with a time > t;
 * double registration (`add(o, start=5)` then `add(o, start=7)`) is OUTSIDE the property's quantifier, but the
@@ -50,12 +63,15 @@ PROPERTY = "C01"
 DRIVER = "drv_c01"
 PROPS = ["PartituraModel.Props.C01", "PartituraModel.Props.C01Any", "PartituraModel.Props.C01Np",
          "PartituraModel.Props.C01Classes", "PartituraModel.Props.C01X", "PartituraModel.Props.C01Order",
-         "PartituraModel.Props.C01Buckets"]
+         "PartituraModel.Props.C01Buckets", "PartituraModel.Props.C01Y", "PartituraModel.Props.C01YQ"]
 TRUSTED = [
     "numpy runs the textbook algorithms: np.searchsorted(side=left) = the binary search `bsearch`, np.insert/np.delete "
     "for one index = slice copies `npInsert/npDelete` (compared on sorted and unsorted TimePoint object arrays); that the "
     "model's prefix count / List.insertIdx / List.eraseIdx equal them on the part's sorted arrays is PROVED "
-    "(bsearch_eq_searchsorted, timeline_np); ComparableMixin comparison = comparison of t",
+    "(bsearch_eq_searchsorted, timeline_np); that numpy compares the elements of an object array through the element's "
+    "`__lt__` is trusted - that TimePoint.__lt__ and the other five rich comparisons (ComparableMixin lambdas, "
+    "regenerated from the source) are the comparisons of t is PROVED (timepoint_compare, timepoint_order_total, "
+    "searchsorted_through_lt) and compared (stream `cmp`)",
     "scipy interp1d(kind=previous, fill_value=(y0, y-1)) = value of the last table entry <= x (modelled by qdAtQ/qdAt, "
     "specified by quarterMap_correct; compared at every table/point time after every operation and at random rational "
     "times as scalar/list/array, fresh map and memo); interp1d works in binary64: times and quarter durations are exact "
@@ -72,7 +88,13 @@ TRUSTED = [
     "a missing key read appears empty); dict key order and empty buckets are not observable through the API and not compared",
     "harness/translate_classes.py: the class DAG, __subclasses__() order and iter_subclasses sequences are the live ones; "
     "harness/translate_c01sig.py: default argument values (inspect.signature), the initial quarter table and the accepted "
-    "`which` / `mode` strings (behaviour of every string constant of the function on a two-object part) are the live ones",
+    "`which` / `mode` strings (behaviour of every string constant of the function on a two-object part) are the live ones; "
+    "harness/translate_c01views.py: the (class, include_subclasses) pair of every Part property that is one iter_all call, "
+    "the lambdas of ComparableMixin / the key order of _compare / TimePoint._cmpkey, the loops and the initial value of "
+    "compute_number_of_staves are read from the live source by ast",
+    "`staff` attributes do not change while an object is on the part (number_of_staves has no way to notice; the "
+    "generator never changes them); `duration` on numpy-typed times is numpy scalar arithmetic (not modelled: the dump "
+    "reports the exact difference of the two referenced times there)",
 ]
 PARTIAL = [
     "histories with double registration of one side (outside Valid, ~15% of the generated ones): proved are WInv (all "
@@ -89,7 +111,13 @@ PARTIAL = [
     "remove_*_object never cleans up, so the point may stay EMPTY: the model records it in the ghost field `requested` "
     "(= points allowed to be empty) - 'never empty' holds only in that weakened form after such a call (example in "
     "Props/C01X); the Tuplet setters (they need the per-object `_start_note` state) and Note.tie_next/tie_prev (no "
-    "timeline effect) are not separate operations - the Tuplet setters' timeline effect is one tpRemove",
+    "timeline effect) are not separate operations; the Tuplet setters ARE operations since round 6 (tuplet_setter_effect, "
+    "tuplet_setter_inv, winvY_reachable) with the same weakened 'never empty'",
+    "the memo _number_of_staves is proved fresh (staves_memo_fresh, number_of_staves_correct) along histories of operations "
+    "that go through Part; after a direct TimePoint.add_*/remove_*_object or a Slur / Tuplet setter call it can be STALE "
+    "(example in Props/C01Y: the code has no way to notice) - outside the property's quantifier, compared only; "
+    "Part properties that filter or do more than one iter_all call (notes_tied, segments, the *_map properties) are not "
+    "modelled (listed in Gen.C01Views.otherViews)",
     "non-termination of iter_prev/iter_next on cyclic links is modelled as an error value (never reached under WInv: "
     "iterPrev_any_history/iterNext_any_history show the walk succeeds in every reachable state)",
     "times and quarter durations above 2^53: get_or_add_point reads the quarter through the binary64 interp1d memo, so "
@@ -108,7 +136,12 @@ RULE = ("random edit histories of 1-60 operations (add by start/end/both, remove
         "points, Slur.start_note / end_note setters, remove with `which` omitted / 'start' / 'end' / 'both' / unknown "
         "strings, add with omitted times, iter_all with omitted arguments, unknown mode strings and bounds given as int / "
         "numpy int / float / own TimePoint / foreign TimePoint, Part(id) with the default quarter duration; a sweep over "
-        "every class x include_subclasses x mode closes each history; "
+        "every class x include_subclasses x mode closes each history; 40% are ROUND-6 histories: objects carry `staff` "
+        "attributes (None, 1..7), one or two are Tuplets, classes the wrappers ask for are planted, and 27% of their "
+        "operations are Tuplet.start_note / end_note = note (None, registered or unregistered notes), a class-query wrapper "
+        "(part.notes, .measures, ... all 12), part.number_of_staves (memo hit and recomputation), or the six rich "
+        "comparisons of two TimePoints (equal, adjacent, arbitrary times); the dump after EVERY operation also holds every "
+        "object's duration and the memo _number_of_staves; "
         "distinct = distinct (classes, operation list); non-trivial = at least one removal or quarter change succeeded "
         "on a non-empty timeline")
 LEVEL_TEXT = ("Machine-checked proof (Lean 4) that the modelled timeline state machine keeps the full invariant along every "
@@ -124,7 +157,14 @@ LEVEL_TEXT = ("Machine-checked proof (Lean 4) that the modelled timeline state m
               "searchsorted/insert/delete are replaced by proved algorithm models; the model is tied to the code by a "
               "lock-step differential comparison of the complete observable state after every operation of random "
               "histories, and the class DAG, the default argument values and the accepted `which`/`mode` strings are "
-              "regenerated from the live source and re-checked by kernel evaluation.")
+              "regenerated from the live source and re-checked by kernel evaluation.  Round 6: the rich comparisons of "
+              "TimePoints (lambdas regenerated from ComparableMixin) are proved to be the strict total order of the times "
+              "that the search theorems assume; the class-query wrappers of Part (class and flag regenerated) are proved "
+              "to return exactly the matching listed objects in time order and to ask for their documented classes; "
+              "duration is proved to be the distance of the two listing points; the Tuplet setters are operations of "
+              "the machine (weak invariant after every history); the memo _number_of_staves is a model component proved "
+              "fresh after every history of operations that go through Part (compute_number_of_staves, loops "
+              "regenerated, is proved to be a maximum that depends on the starting listings only).")
 SEARCH_LIMIT = 6000
 
 _CT = None
@@ -243,10 +283,30 @@ def gen_history(rng, tier):
     ops = []
     # round 5: TimePoint methods called directly, the Slur setters, string / omitted arguments, bound forms
     extended = rng.random() < 0.45
+    # round 6: Tuplet setters, the class-query wrappers (part.notes, ...), number_of_staves (a memo), comparisons
+    ext6 = rng.random() < 0.4
+    staff = [None] * nobj
+    tuplets = []
+    tupnote = {}
+    if ext6:
+        staff = [rng.choice([None, None, 1, 1, 2, 3, 4, 7]) for _ in range(nobj)]
+        if "Tuplet" in idx and rng.random() < 0.6:
+            for _ in range(rng.randint(1, 2)):
+                cls[rng.randrange(nobj)] = idx["Tuplet"]
+            tuplets = [i for i in range(nobj) if cls[i] == idx["Tuplet"]]
+            tupnote = {i: [None, None] for i in tuplets}
+        # the wrappers ask for fixed classes: put some of them on the timeline
+        for nm in rng.sample(VIEW_CLASSES, 3):
+            if nm in idx and rng.random() < 0.5:
+                j = rng.randrange(nobj)
+                if j not in tuplets:
+                    cls[j] = idx[nm]
     slurs = []
     if extended and "Slur" in idx and rng.random() < 0.6:
         for _ in range(rng.randint(1, 2)):
-            cls[rng.randrange(nobj)] = idx["Slur"]
+            j = rng.randrange(nobj)
+            if j not in tuplets:
+                cls[j] = idx["Slur"]
         slurs = [i for i in range(nobj) if cls[i] == idx["Slur"]]
 
     def bform(allow_none=True):
@@ -275,6 +335,27 @@ def gen_history(rng, tier):
 
     for _ in range(nops):
         x = rng.random()
+        if ext6 and rng.random() < 0.27:
+            y = rng.random()
+            if y < 0.3 and tuplets:
+                tu = rng.choice(tuplets)
+                sd = rng.randrange(2)
+                cand = [i for i in range(nobj) if reg[i][sd] is not None and i != tu]
+                nt = None if rng.random() < 0.12 else (rng.choice(cand) if cand and rng.random() < 0.8
+                                                      else rng.randrange(nobj))
+                old = tupnote[tu][sd]
+                if nt is not None and reg[nt][sd] is not None and old is not None and reg[old][sd] is not None:
+                    reg[tu][sd] = None
+                tupnote[tu][sd] = nt
+                ops.append(["tupS" if sd == 0 else "tupE", tu, nt])
+            elif y < 0.55:
+                ops.append(["view", rng.choice(VIEW_NAMES)])
+            elif y < 0.85:
+                ops.append(["staves"])
+            else:
+                a_ = time_(neg_ok=False)
+                ops.append(["cmp", a_, rng.choice([a_, a_ + 1, a_ - 1, time_(neg_ok=False), rng.randrange(0, 30)])])
+            continue
         if extended and rng.random() < 0.3:
             y = rng.random()
             if y < 0.2:
@@ -444,7 +525,24 @@ def gen_history(rng, tier):
                 rng.random() < 0.12])
     if extended and rng.random() < 0.3:
         q0 = None      # Part(id): the default quarter duration
-    return {"q0": q0, "cls": cls, "ops": ops}
+    d = {"q0": q0, "cls": cls, "ops": ops}
+    if ext6:
+        d["staff"] = staff
+    return d
+
+
+# the documented meaning of the class-query wrappers of Part (docstrings of the properties): name -> (class,
+# subclasses included).  The ORACLE uses this table; the model uses the one regenerated from the source.
+DOC_VIEWS = {"notes": ("Note", True), "measures": ("Measure", False), "rests": ("Rest", False),
+             "cadences": ("Cadence", False), "repeats": ("Repeat", False), "key_sigs": ("KeySignature", False),
+             "time_sigs": ("TimeSignature", False), "dynamics": ("LoudnessDirection", True),
+             "tempo_directions": ("TempoDirection", True), "harmony": ("Harmony", True), "phrases": ("Phrase", False),
+             "articulations": ("ArticulationDirection", True)}
+VIEW_NAMES = sorted(DOC_VIEWS) + ["notes", "dynamics", "harmony", "tempo_directions"]
+VIEW_CLASSES = sorted(set(v[0] for v in DOC_VIEWS.values())) + ["GraceNote", "ChordSymbol", "RomanNumeral", "Clef", "Words"]
+# number_of_staves (docstring of Part / compute_number_of_staves): the largest `staff` of the notes (any GenericNote),
+# clefs, directions (any Direction) and words on the part, at least 1
+STAVES_CLASSES = [("GenericNote", True), ("Clef", False), ("Direction", True), ("Words", False)]
 
 
 def gen_buckets(rng):
@@ -519,6 +617,13 @@ class Ctx:
             # what the Slur setters touch on the note handed to them (GenericNote.__init__ creates them)
             o.slur_starts = []
             o.slur_stops = []
+            # what the Tuplet setters touch (GenericNote.__init__ / Tuplet.__init__ create them)
+            o.tuplet_starts = []
+            o.tuplet_stops = []
+            o._start_note = None
+            o._end_note = None
+        for o, st in zip(self.objs, desc.get("staff") or [None] * len(self.objs)):
+            o.staff = st
         self.oid = {id(o): i for i, o in enumerate(self.objs)}
 
     # ---- canonical dump of the real part (the same text Driver/C01.lean prints)
@@ -556,8 +661,23 @@ class Ctx:
                 m.append("%d" % int(v) if v == int(v) else "?%r" % v)
             except Exception as e:
                 m.append("err:" + type(e).__name__)
+        du = []
+        for o in self.objs:
+            try:
+                if o.start is not None and o.end is not None and not (type(o.start.t) is int and type(o.end.t) is int):
+                    # a time handed over as a numpy scalar stays one in TimePoint.t; `end.t - start.t` is then numpy
+                    # arithmetic (an unsigned kind wraps when end < start) - not modelled: the exact difference of
+                    # the two referenced times is reported instead of the property's value
+                    v = int(o.end.t) - int(o.start.t)
+                else:
+                    v = self.S.TimedObject.duration.fget(o)
+                du.append("-" if v is None else _num(v))
+            except Exception as e:
+                du.append("err:" + type(e).__name__)
+        ns = getattr(p, "_number_of_staves", "?")
         return ("P[" + ",".join(pts) + "];O[" + ",".join(ob) + "];Q[" + ",".join(qd) + "];QT[" +
-                ",".join(_num(x) for x in qt) + "];QD[" + ",".join(_num(x) for x in qv) + "];M[" + ",".join(m) + "]")
+                ",".join(_num(x) for x in qt) + "];QD[" + ",".join(_num(x) for x in qv) + "];M[" + ",".join(m) +
+                "];D[" + ",".join(du) + "];S" + ("-" if ns is None else _num(ns)))
 
     def ids(self, it):
         return [self.oid.get(id(o), 10 ** 6) for o in it]
@@ -618,6 +738,14 @@ def request_of(op):
             return ("p " if b[0] in ("tp", "tpf") else "n ") + W.q(Fraction(b[1], b[2]))
         return "allx %s %s %s %s %s" % (_o(op[1]), bd(op[2]), bd(op[3]), "_" if op[4] == "_" else W.b(op[4]),
                                         "_" if op[5] == "_" else W.s(op[5]))
+    if k in ("tupS", "tupE"):
+        return "%s %d %s" % (k, op[1], _o(op[2]))
+    if k == "view":
+        return "view %s" % W.s(op[1])
+    if k == "staves":
+        return "staves"
+    if k == "cmp":
+        return "cmp %d %d" % (op[1], op[2])
     raise ValueError(k)
 
 
@@ -771,6 +899,20 @@ def perform(cx, op):
             kw["mode"] = op[5]
         res = list(p.iter_all(**kw))
         return "objs:" + _ilist(cx.ids(res)), res
+    if k in ("tupS", "tupE"):
+        prop = S.Tuplet.start_note if k == "tupS" else S.Tuplet.end_note
+        prop.__set__(cx.objs[op[1]], None if op[2] is None else cx.objs[op[2]])
+        return "ok", None
+    if k == "view":
+        res = getattr(p, op[1])
+        return "objs:" + _ilist(cx.ids(res)), res
+    if k == "staves":
+        r = p.number_of_staves
+        return "n:" + _num(r), r
+    if k == "cmp":
+        a, b = S.TimePoint(op[1]), S.TimePoint(op[2])
+        r = [a < b, a <= b, a == b, a >= b, a > b, a != b]
+        return "cmp:[" + ",".join(("1" if v else "0") if isinstance(v, bool) else "?" for v in r) + "]", r
     if k in ("np_ss", "np_ins", "np_del"):
         import numpy as np
 
@@ -792,7 +934,7 @@ def perform(cx, op):
 
         a = int(np.searchsorted(p._points, cx.S.TimePoint(op[1])))
         b = int(np.searchsorted(p._quarter_times, op[1]))
-        return "np:(%d,%d,%d,%d)" % (a, a, b, b), (a, b)
+        return "np:(%d,%d,%d,%d,%d)" % (a, a, b, b, a), (a, b)
     raise ValueError(k)
 
 
@@ -819,6 +961,10 @@ class Book:
         self.listed = [set(), set()]
         self.requested = set()
         self.valid = True
+        # the memo `_number_of_staves` is only invalidated by Part.add / Part.remove: after a direct TimePoint /
+        # Slur / Tuplet call (outside the property's quantifier) it may be stale until the next add / remove
+        self.staves_dirty = False
+        self.tupnote = {}
 
     def times(self):
         return set(t for side in self.listed for _, t in side)
@@ -942,6 +1088,18 @@ def check_invariant(cx, bk):
                     fails.append("backref: object %d registered at %s=%s refers to %s" % (
                         i, ("start", "end")[side], want,
                         None if ref is None else "t=%s%s" % (ref.t, "" if any(ref is q for q in pts) else " (not on the timeline)")))
+    # o.duration: the distance between the two registered times, None unless both are registered
+    for i, o in enumerate(cx.objs):
+        a, b = bk.reg[i]
+        want = None if a is None or b is None else int(b) - int(a)   # (resync may have taken numpy scalars from the part)
+        if o.start is not None and o.end is not None and not (type(o.start.t) is int and type(o.end.t) is int):
+            continue   # numpy scalar arithmetic: not judged
+        try:
+            got = cx.S.TimedObject.duration.fget(o)
+        except Exception as e:
+            got = "raises " + type(e).__name__
+        if got != want:
+            fails.append("backref: object %d registered at start=%s end=%s has duration %r, expected %r" % (i, a, b, got, want))
     # quarter table and quarter per point
     try:
         table = [(int(r[0]), int(r[1])) for r in p.quarter_durations().tolist()]
@@ -1011,6 +1169,12 @@ def check_objs(cx, bk, what, res, side, pred, cls, incl, descending=False):
 
 
 NP_KINDS = ("np_ss", "np_ins", "np_del", "npstate")
+NODUMP = NP_KINDS + ("cmp",)
+
+
+def _nomemo(dump):
+    """the dump without the `_number_of_staves` memo (reading number_of_staves fills it: not a change of the part)"""
+    return dump.rsplit(";S", 1)[0]
 
 
 def evaluate_buckets(desc):
@@ -1110,6 +1274,9 @@ def evaluate(desc):
     requests = ["reset0 %s" % W.lst(W.i, desc["cls"]) if desc["q0"] is None
                 else "reset %d %s" % (desc["q0"], W.lst(W.i, desc["cls"]))]
     impl = ["ok;" + cx.dump()]
+    if desc.get("staff"):
+        requests.append("staff " + W.lst(lambda v: "-" if v is None else "%d" % v, desc["staff"]))
+        impl.append("ok")
     oracle = []
     nontrivial = 0
     branches = {}
@@ -1120,7 +1287,7 @@ def evaluate(desc):
 
     for opi, op in enumerate(desc["ops"]):
         k = op[0]
-        before = cx.dump()
+        before = _nomemo(cx.dump())   # the oracle's frame conditions do not look at the memo `_number_of_staves`
         before_sq = strip_quarters(cx)
         try:
             before_table = [(int(r[0]), int(r[1])) for r in cx.part.quarter_durations().tolist()]
@@ -1134,9 +1301,10 @@ def evaluate(desc):
         except Exception as e:  # noqa
             exc = e
             res = "err:" + type(e).__name__
-        after = cx.dump()
+        after_full = cx.dump()
+        after = _nomemo(after_full)
         requests.append(request_of(op))
-        impl.append(res if k in NP_KINDS else res + ";" + after)
+        impl.append(res if k in NODUMP else res + ";" + after_full)
         branches[k + ("!" if exc is not None else "")] = branches.get(k + ("!" if exc is not None else ""), 0) + 1
         if not bk.valid:
             continue
@@ -1237,16 +1405,38 @@ def evaluate(desc):
             if bk.reg[op[2]][1] is not None:
                 bk.listed[1].add((op[1], bk.reg[op[2]][1]))
                 bk.reg[op[1]][1] = bk.reg[op[2]][1]
+        elif k in ("tupS", "tupE"):
+            # Tuplet.start_note / end_note = note: when the note is given and has a start (end) and the tuplet's
+            # previous note has one too, the tuplet leaves the point where the PREVIOUS note starts (ends): one
+            # TimePoint.remove_*_object there (no clean-up)
+            sd = 0 if k == "tupS" else 1
+            tu, nt = op[1], op[2]
+            old = bk.tupnote.get((tu, sd))
+            if nt is not None and bk.reg[nt][sd] is not None and old is not None and bk.reg[old][sd] is not None:
+                t = bk.reg[old][sd]
+                cur = bk.reg[tu][sd]
+                ref = cx.objs[tu].start if sd == 0 else cx.objs[tu].end
+                foreign = cur is not None and cur != t
+                bk.tp_remove(sd, t, tu, keep_ref=foreign and ref is not None and ref.t == cur)
+            bk.tupnote[(tu, sd)] = nt
+            got = cx.objs[tu]._start_note if sd == 0 else cx.objs[tu]._end_note
+            if got is not (None if nt is None else cx.objs[nt]):
+                fail(opi, op, "backref: tuplet %d does not keep the note it was given" % tu)
+        if k in ("add", "rm", "addd") or (k == "rmx" and op[2] in (None, "start", "end", "both")):
+            bk.staves_dirty = False
+        elif k in ("tpadd", "tprm", "slurS", "slurE", "tupS", "tupE", "rmx"):
+            bk.staves_dirty = True
         if k in ("tpadd", "tprm") and raw is None:
             if op[2] in bk.times() or op[2] in [tp.t for tp in cx.part._points]:
                 fail(opi, op, "query: get_point(%d) found no point although one exists" % op[2])
             if after != before:
                 fail(opi, op, "frame: read-only query changed the part: before %s after %s" % (before, after))
         # frame conditions
-        if k in ("all", "allx", "prev", "next", "first", "last", "gp", "qds", "sweep", "qmap") + NP_KINDS:
+        if k in ("staves", "all", "allx", "prev", "next", "first", "last", "gp", "qds", "sweep", "qmap", "view", "cmp") + NP_KINDS:
             if after != before:
                 fail(opi, op, "frame: read-only query changed the part: before %s after %s" % (before, after))
-        if k in ("add", "rm", "goa", "addd", "rmx", "tpadd", "tprm", "slurS", "slurE") and before_table is not None:
+        if k in ("add", "rm", "goa", "addd", "rmx", "tpadd", "tprm", "slurS", "slurE", "tupS", "tupE", "staves",
+                 "view") and before_table is not None:
             try:
                 tab = [(int(r[0]), int(r[1])) for r in cx.part.quarter_durations().tolist()]
             except Exception:
@@ -1296,6 +1486,30 @@ def evaluate(desc):
             for f in check_objs(cx, bk, "iter_all(%s..%s)" % (op[2][0], op[3][0]), raw, side,
                                 lambda x: (a is None or a <= x) and (b is None or x < b), op[1], incl):
                 fail(opi, op, f)
+        elif k == "view" and op[1] in DOC_VIEWS:
+            cname, incl = DOC_VIEWS[op[1]]
+            cid_ = cx.t["names"].index(cname) if cname in cx.t["names"] else None
+            if cid_ is not None:
+                for f in check_objs(cx, bk, "part.%s" % op[1], raw, 0, lambda x: True, cid_, incl):
+                    fail(opi, op, f)
+        elif k == "staves" and not bk.staves_dirty:
+            want = 1
+            for (i, t) in bk.listed[0]:
+                st = getattr(cx.objs[i], "staff", None)
+                ty = type(cx.objs[i])
+                hit = any((issubclass(ty, getattr(S, cn)) if incl else ty is getattr(S, cn))
+                          for cn, incl in STAVES_CLASSES if hasattr(S, cn))
+                if hit and st is not None and st > want:
+                    want = st
+            if raw != want:
+                fail(opi, op, "query: number_of_staves is %r, the largest staff of the registered notes, clefs, "
+                              "directions and words is %d" % (raw, want))
+        elif k == "cmp":
+            a, b = op[1], op[2]
+            want = [a < b, a <= b, a == b, a >= b, a > b, a != b]
+            if raw != want:
+                fail(opi, op, "order: TimePoint(%d) <,<=,==,>=,>,!= TimePoint(%d) gives %r, the times compare as %r" % (
+                    a, b, raw, want))
         elif k in ("prev", "next") and raw is not None:
             t, eq = op[1], op[3]
             if k == "prev":
@@ -1402,9 +1616,13 @@ def shrink(desc):
     used = [op[1] for op in ops if op[0] in ("add", "rm", "rmx", "addd")]
     used += [op[3] for op in ops if op[0] in ("tpadd", "tprm")]
     used += [v for op in ops if op[0] in ("slurS", "slurE") for v in op[1:3]]
+    used += [v for op in ops if op[0] in ("tupS", "tupE") for v in op[1:3] if v is not None]
     top = max(used) + 1 if used else 1
     if top < len(desc["cls"]):
-        yield dict(desc, cls=desc["cls"][:top])
+        d2 = dict(desc, cls=desc["cls"][:top])
+        if desc.get("staff"):
+            d2["staff"] = desc["staff"][:top]
+        yield d2
 
 
 def distribution(descs, results):
@@ -1425,6 +1643,7 @@ def distribution(descs, results):
     npk = Counter()
     forms = Counter()
     strs = Counter()
+    views = Counter()
     mag["registry (bucket) cases"] = sum(1 for d in descs if d.get("kind") == "buckets")
     for d in descs:
         if d.get("kind") == "buckets":
@@ -1450,11 +1669,16 @@ def distribution(descs, results):
                 strs["incl=" + repr(op[4])] += 1
             if op[0] == "rmx":
                 strs["which=" + repr(op[2])] += 1
+            if op[0] == "view":
+                views[op[1]] += 1
             if op[0] == "addd":
                 strs["add(%s,%s)" % ("omitted" if op[2] == "_" else "given", "omitted" if op[3] == "_" else "given")] += 1
     return {"operations (! = raised)": dict(br), "history length (decade)": dict(nops),
             "magnitudes (histories)": dict(mag), "numpy scalar arguments": dict(npk),
-            "iter_all bound forms": dict(forms), "string / omitted arguments": dict(strs),
+            "iter_all bound forms": dict(forms), "class-query wrappers read": dict(views),
+            "histories with staff attributes / tuplet setters": [sum(1 for d in descs if d.get("staff")),
+                                                                sum(1 for d in descs if any(
+                                                                    op[0] in ("tupS", "tupE") for op in d.get("ops", [])))], "string / omitted arguments": dict(strs),
             "histories without an unexpected exception": valid, "histories": len(descs),
             "histories ending without a stale listing (inside Valid, or double registration undone)": strict,
             "objects": dict(Counter(len(d["cls"]) for d in descs)),
